@@ -100,13 +100,21 @@ def check(prog, rep):
         # workers that dispatch on the node kind
         for p in expr_params:
             # the cached function itself plus the package functions it hands this very parameter to
-            workers = [(fi, p)]
+            workers = [(fi, p, None)]
+            aliases_fi = prog.func_aliases(fi)
             for c in calls(fi.node):
                 tg = cg.resolve_name(fi, c.func.id) if isinstance(c.func, ast.Name) else None
                 for t in tg or []:
                     for i, a in enumerate(c.args):
                         if isinstance(a, ast.Name) and a.id == p and i < len(t.node.args.args):
-                            workers.append((t, t.node.args.args[i].arg))
+                            # kinds the parameter is known to have at this call site (enclosing isinstance arm)
+                            from ..astutil import isinstance_parts
+                            gk = None
+                            for test, pol in dominating_guards(c):
+                                ip = isinstance_parts(test, aliases_fi)
+                                if ip and ip[0] == p and pol and not ip[2]:
+                                    gk = set(ip[1])
+                            workers.append((t, t.node.args.args[i].arg, gk))
             for kind, key_attrs in sorted(neq.items()):
                 if not _may_be(fi, p, kind):
                     continue
@@ -199,7 +207,9 @@ def _root_arm_effects(prog, workers, p, kind):
     """Attributes of the root object read by the arm(s) handling `kind`, and whether the object escapes into the
     produced value (captured by a closure / placed in a returned tree)."""
     reads, escapes, where = set(), False, None
-    for w, p in workers:
+    for w, p, gk in workers:
+        if gk is not None and not any(kind == g or prog.is_subclass(kind, g) for g in gk):
+            continue  # this worker only ever receives other kinds
         try:
             d = dispatcher(prog, w, min_arms=2)
         except AnalysisError:
